@@ -321,7 +321,7 @@ def _c19_tags(toks, impl):
 PROPS = {
     "C07": {
         "lean_modules": ["Dbg.Props.C07", "Dbg.Props.C08b"],
-        "theorems": ["Msp.simpleScan_eq_scan", "Msp.C07_scan_valid", "Msp.C07_scan_holds", "Msp.C07_scan_guard", "Msp.C07_every_kmer_once"],
+        "theorems": ["Msp.C07_simple_scan", "Msp.simpleScan_eq_scan", "Msp.C07_scan_valid", "Msp.C07_scan_holds", "Msp.C07_scan_guard", "Msp.C07_every_kmer_once"],
         "partial": [],
         "n_quick": 4000, "n_thorough": 300000,
         "nontrivial": _c07_nontrivial, "tags": _c07_tags, "shrink": _c07_shrink,
